@@ -1,7 +1,7 @@
 import ast
 from contextlib import suppress
 from dataclasses import dataclass, field
-from typing import ClassVar, NoReturn
+from typing import Any, ClassVar, NoReturn
 
 from hugr import Wire
 
@@ -86,7 +86,9 @@ class OverloadedFunctionDef(CompiledCallableDef, CallableDef):
             assert isinstance(defn, CallableDef)
             available_sigs.append(defn.ty)
             with suppress(GuppyError):
-                return defn.check_call(args, ty, node, ctx)
+                # Checking annotates the argument nodes in place, so every attempt
+                # needs its own copy
+                return defn.check_call(_copy_args(args), ty, node, ctx)
         return self._call_error(args, node, ctx, available_sigs, ty)
 
     def synthesize_call(
@@ -98,7 +100,7 @@ class OverloadedFunctionDef(CompiledCallableDef, CallableDef):
             assert isinstance(defn, CallableDef)
             available_sigs.append(defn.ty)
             with suppress(GuppyError):
-                return defn.synthesize_call(args, node, ctx)
+                return defn.synthesize_call(_copy_args(args), node, ctx)
         return self._call_error(args, node, ctx, available_sigs)
 
     def _call_error(
@@ -148,3 +150,26 @@ class OverloadedFunctionDef(CompiledCallableDef, CallableDef):
         raise InternalGuppyError(
             "OverloadedFunctionDef.load_with_args shouldn't be invoked"
         )
+
+
+def _copy_args(args: list[ast.expr]) -> list[ast.expr]:
+    """Copies the argument ASTs of a call.
+
+    Everything that is not an AST node (types, places, comptime values, ...) is shared.
+    Unlike `copy.deepcopy`, this also works for Guppy's custom AST nodes whose
+    constructors take required arguments.
+    """
+
+    def go(x: Any) -> Any:
+        if isinstance(x, list):
+            return [go(y) for y in x]
+        if not isinstance(x, ast.AST):
+            return x
+        new = x.__class__.__new__(x.__class__)
+        new.__dict__.update(x.__dict__)
+        for field in x._fields:
+            if field in x.__dict__:
+                setattr(new, field, go(x.__dict__[field]))
+        return new
+
+    return [go(arg) for arg in args]
